@@ -36,7 +36,7 @@ check(s) in the third column; the one exception is an equivalent mutant (explain
 
 ### 7.2 Seeded changes written by independent sub-agents (`seeded/<id>-<n>/`)
 
-In six rounds, fresh sub-agents were given only the text of a property and a scratch git worktree of /repo under /tmp
+In seven rounds, fresh sub-agents were given only the text of a property and a scratch git worktree of /repo under /tmp
 (nothing from /verif) and asked for two changes per property that break it, keep the 413 existing tests green and need
 something specific to manifest, each with a demonstration program. Round 1 (-1, -2: one agent per property) and round 2
 (-3, -4: also told to prefer cooperating sites and less obvious places) covered all 19 properties; round 3 (-5, -6: ten
@@ -46,7 +46,10 @@ and to avoid the ideas of the earlier rounds) was aimed at the properties whose 
 two changes each) asked for changes made of TWO COOPERATING EDITS, each harmless alone; round 6 (-9, -10: all 19
 properties) asked for one plausible OPTIMISATION (cache / memo keyed on too little, fast path, buffer reuse) and one
 ERROR-HANDLING REFACTOR (reordered validation, changed except clauses, moved rollback) per property, whose effect shows
-only for a particular input class, on a later use of an object, or after a particular earlier call. Every change was confirmed here before it was kept
+only for a particular input class, on a later use of an object, or after a particular earlier call; round 7 (-11,
+-12: all 19 properties) asked for one REPRESENTATION change (bytes / bytearray / memoryview, int / IntEnum / bool, None /
+empty, Unicode normalisation / case / width, falsy-but-present values) and one BOUNDARY change (an off-by-one or wrong
+comparison that is wrong at ONE exact size / count / position / value, preferably not a power of two). Every change was confirmed here before it was kept
 (`tools/seedcheck.sh`: suite with the change: 413 passed; demo without the change: exit 0; demo with the change: exit 1)
 and then the quick tier of the property's check was run against the changed tree. {n} changes were kept. {n - missed_first - outside}
 were caught by the first version of the checks; {missed_first} were missed at first and led to the strengthenings described in
